@@ -50,8 +50,13 @@ class SigmaGlobalFilter(SigmaDetections):
                 # Empty list is treated as "any"
                 if not detections["rules"]:
                     rules = "any"
-                else:
+                elif all(isinstance(reference, str) for reference in detections["rules"]):
                     rules = [SigmaRuleReference(detection) for detection in detections["rules"]]
+                else:
+                    raise sigma_exceptions.SigmaFilterRuleReferenceError(
+                        "Sigma filter rule references must be strings (rule IDs or names)",
+                        source=source,
+                    )
             else:
                 raise sigma_exceptions.SigmaFilterRuleReferenceError(
                     "Sigma filter rules field must be 'any', a rule ID/name, or a list of rule IDs/names",
@@ -64,6 +69,7 @@ class SigmaGlobalFilter(SigmaDetections):
                 source=source,
             )
 
+        cls.check_identifiers(detections, source)
         return cls(
             detections={
                 name: SigmaDetection.from_definition(definition, source)
